@@ -718,8 +718,15 @@ func (val Value) Divide(other Value) Value {
 		return (*shortCircuit).RefineNotNull()
 	}
 
+	divisor := other.v.(*big.Float)
+	if divisor.Sign() == 0 && divisor.Signbit() {
+		// A negative zero is still exactly zero: the sign of the resulting
+		// infinity is documented to depend on the receiver only.
+		divisor = new(big.Float).Abs(divisor)
+	}
+
 	ret := new(big.Float)
-	ret.Quo(val.v.(*big.Float), other.v.(*big.Float))
+	ret.Quo(val.v.(*big.Float), divisor)
 	return NumberVal(ret)
 }
 
